@@ -615,13 +615,16 @@ def dead_local_pass(fn: ast.FunctionDef, qual: str, known_locals: Dict[str, set]
         elif isinstance(n, (ast.Global, ast.Nonlocal)):
             scoped.update(n.names)
     changed = False
+    # a loop variable that is augmented and never read (`for k, v in d.items(): v *= s`) is not bookkeeping somebody forgot to read -
+    # it is an update that goes nowhere; the statement stays so that the rules can speak about it (common_state S12)
+    loop_targets = {x.id for n in ast.walk(fn) if isinstance(n, (ast.For, ast.comprehension)) for x in ast.walk(n.target) if isinstance(x, ast.Name)}
     for blk in _blocks_of(fn):
         keep = []
         for st in blk:
             t = None
             if isinstance(st, ast.Assign) and len(st.targets) == 1 and isinstance(st.targets[0], ast.Name):
                 t = st.targets[0].id
-            elif isinstance(st, ast.AugAssign) and isinstance(st.target, ast.Name):
+            elif isinstance(st, ast.AugAssign) and isinstance(st.target, ast.Name) and st.target.id not in loop_targets:
                 t = st.target.id
             if t is not None and t not in known and t not in params and t not in loads and t not in scoped and _effect_free(st.value):
                 stores[t] -= 1
@@ -2428,12 +2431,42 @@ class _StarredDisplay(ast.NodeTransformer):
     spell the concatenation)."""
     def visit_List(self, n):
         self.generic_visit(n)
+        if isinstance(n.ctx, ast.Load) and len(n.elts) == 1 and isinstance(n.elts[0], ast.Starred):
+            # [*xs] is list(xs)
+            return ast.copy_location(ast.Call(func=ast.Name(id="list", ctx=ast.Load()), args=[n.elts[0].value], keywords=[]), n)
         if isinstance(n.ctx, ast.Load) and len(n.elts) >= 2:
             stars = [i for i, e in enumerate(n.elts) if isinstance(e, ast.Starred)]
             if stars == [0] and isinstance(n.elts[0].value, ast.Name):
                 return ast.copy_location(ast.BinOp(left=n.elts[0].value, op=ast.Add(), right=ast.List(elts=n.elts[1:], ctx=ast.Load())), n)
             if stars == [len(n.elts) - 1] and isinstance(n.elts[-1].value, ast.Name):
                 return ast.copy_location(ast.BinOp(left=ast.List(elts=n.elts[:-1], ctx=ast.Load()), op=ast.Add(), right=n.elts[-1].value), n)
+        return n
+
+
+class _SetdefaultIncrement(ast.NodeTransformer):
+    """`D[K] = D.setdefault(K, c) + E` is `D[K] = D.get(K, c) + E`: the entry setdefault may create is overwritten by this very
+    statement, so only the value read matters."""
+    def visit_Assign(self, n):
+        self.generic_visit(n)
+        if len(n.targets) == 1 and isinstance(n.targets[0], ast.Subscript) and isinstance(n.value, ast.BinOp):
+            t = n.targets[0]
+            for side in ("left", "right"):
+                c = getattr(n.value, side)
+                if isinstance(c, ast.Call) and isinstance(c.func, ast.Attribute) and c.func.attr == "setdefault" and len(c.args) == 2 and not c.keywords \
+                        and ast.unparse(c.func.value) == ast.unparse(t.value) and ast.unparse(c.args[0]) == ast.unparse(t.slice) and isinstance(c.args[1], ast.Constant):
+                    c.func.attr = "get"
+        return n
+
+
+class _SetMethods(ast.NodeTransformer):
+    """`A.union({x})` is `A | {x}` and `A.intersection({..})` is `A & {..}` when the argument is itself a set display / set(..) /
+    set comprehension (only sets and frozensets have these methods, and with a set operand method and operator agree)."""
+    def visit_Call(self, n):
+        self.generic_visit(n)
+        if isinstance(n.func, ast.Attribute) and n.func.attr in ("union", "intersection") and len(n.args) == 1 and not n.keywords:
+            a = n.args[0]
+            if isinstance(a, (ast.Set, ast.SetComp)) or (isinstance(a, ast.Call) and isinstance(a.func, ast.Name) and a.func.id in ("set", "frozenset")):
+                return ast.copy_location(ast.BinOp(left=n.func.value, op=ast.BitOr() if n.func.attr == "union" else ast.BitAnd(), right=a), n)
         return n
 
 
@@ -2676,6 +2709,8 @@ def normalize_program(trees: Dict[str, ast.Module]) -> List[str]:
         _DropAnnotations().visit(tree)
         _DropZipStrict().visit(tree)
         _StarredDisplay().visit(tree)
+        _SetMethods().visit(tree)
+        _SetdefaultIncrement().visit(tree)
         _LowerMatch(mod_, log).visit(tree)
         ast.fix_missing_locations(tree)
     rename_canonical_pass(trees, log)
